@@ -598,7 +598,7 @@ func genBudget(r *Rng, E, S uint64, nops int, small bool, pOut int) Sx {
 		case 2:
 			return avail + 1 + uint64(r.Intn(3))
 		case 3:
-			if avail > 0 {
+			if avail > 0 && avail < ^uint64(0) {
 				return r.U64() % (avail + 1)
 			}
 			return 0
